@@ -21,8 +21,19 @@ for d in sorted(glob.glob(f'{H}/seeded/*/')):
         meta['check_result'] = 'patch does not apply to current /repo HEAD: ' + r.stderr[:200]
         rows.append((name, 'N/A', ''))
     else:
+        others = {}
         try:
             out = subprocess.run([f'{H}/check', pid, '--no-evidence'], capture_output=True, text=True, cwd=H)
+            if out.returncode != 1:
+                # not reported by its own property's check: do the checks of other properties see it?
+                from concurrent.futures import ThreadPoolExecutor
+                def run_other(q):
+                    o = subprocess.run([f'{H}/check', q, '--no-evidence'], capture_output=True, text=True, cwd=H)
+                    return q, o.returncode, sorted(set(re.findall(r'^FAIL (\S+) key=', o.stdout, re.M)))
+                with ThreadPoolExecutor(8) as ex:
+                    for q, rc, rules in ex.map(run_other, [a for a in armed if a != pid]):
+                        if rc == 1:
+                            others[q] = rules[:4]
         finally:
             subprocess.run(['git', '-C', '/repo', 'checkout', '--', '.'])
         fired = sorted(set(re.findall(r'^FAIL (\S+) key=(.*?) at ', out.stdout, re.M)))
@@ -35,6 +46,10 @@ for d in sorted(glob.glob(f'{H}/seeded/*/')):
         meta['check_exit'] = out.returncode
         meta['check_result'] = verdict
         meta['fired'] = [f'{r} key={k}' for r, k in fired][:12]
+        meta.pop('detected_by_other_properties', None)
+        if others:
+            meta['detected_by_other_properties'] = others
+            verdict += ' [reported by ' + ', '.join(sorted(others)) + ']' 
         if err: meta['analysis_error'] = err[0][:300]
         rows.append((name, verdict, '; '.join(f'{r}' for r, k in fired)[:100] or (err[0][:100] if err else '')))
     json.dump(meta, open(mp, 'w'), indent=1); open(mp, 'a').write('\n')
